@@ -727,6 +727,21 @@ fn gen_response(src: &mut Src, ctx: &mut Ctx, w: &mut World, qi: usize, node_add
                 if target.is_empty() {
                     target = vec![b"t".to_vec()];
                 }
+                // one target in four is padded to a wire length of 252..=259 octets, around the 255-octet
+                // limit of a domain name and of the socket's name buffer (decided from the name's own
+                // octets: no further draw). Whether the socket uses or drops such a response is its
+                // business; it must not panic, and the safety and completion rules hold either way.
+                let h: usize = target.iter().flatten().map(|b| *b as usize).sum();
+                if h % 4 == 0 {
+                    let want = 252 + (h / 4) % 8;
+                    let mut have: usize = target.iter().map(|l| 1 + l.len()).sum::<usize>() + 1;
+                    while have + 2 <= want {
+                        let l = (want - have - 1).min(63);
+                        target.insert(0, vec![b'p'; l]);
+                        have += 1 + l;
+                    }
+                    ctx.label("resp:cname-target-near-255-octets");
+                }
                 let e1 = draw_enc(src, style);
                 let e2 = draw_enc(src, style);
                 recs.push(Rec { owner: chain_names[i].clone(), enc: e1, rtype: T_CNAME, class: C_IN, ttl: 60, data: RData::Cname(target.clone(), e2), rdlen_delta: 0 });
@@ -1634,7 +1649,7 @@ pub fn prop() -> Prop {
         parts: vec![Part { name: "resolver", case, quick: 40_000, thorough: 2_000_000 }],
         phases: vec![],
         smoltcp_panic_is_violation: true,
-        rule: "one dns::Socket on a Medium::Ip interface (3/4) or a Medium::Ethernet interface with default routes and scripted neighbours that answer ARP/NS at once, late or never (1/4); IPv4 and/or IPv6 addresses; 0-3 configured servers (IPv4/IPv6, on/off subnet, duplicates, rarely unspecified); 1-3 queries (A/AAAA, 1-5 labels, `.local` => mDNS, start_query / trailing dot / start_query_raw with either mDNS flag) started at drawn instants; a scripted resolver sees every query datagram (independent Ethernet/IP/UDP/DNS decoders) and answers with 0-2 datagrams after a drawn delay (0..31 s), each a correct response with 0-2 (mostly exactly one) attributes drawn wrong: source address (other configured server / stranger), source port (5353/other), destination port, transaction id, question name (other name - preferably a CNAME target used before, with answers for the query's or for that other name -, case, shortened, extended, root, pointer-encoded), question type/class/count, QR, opcode, rcode, TC, answer count, truncation at any byte, garbage; answer section = direct addresses / CNAME chain 1-3 in or out of order ending in the right or wrong record type / unrelated names / empty, plus noise records (unrelated owner, unrelated CNAME, other type, wrong class, bad RDLENGTH, other family), names written plain, compressed, with chained, forward, self, looping and out-of-range pointers, reserved label types or no terminator; plus unsolicited datagrams. Time moves only to Interface::poll_at (optionally a little late), datagram arrival or query start. Non-trivial = a near-miss (exactly one statement attribute wrong, otherwise a usable answer) or a header-and-question-matching response with a CNAME chain or compression pointers was delivered while its query was pending; distinct by digest of configuration, queries and delivered payloads",
+        rule: "one dns::Socket on a Medium::Ip interface (3/4) or a Medium::Ethernet interface with default routes and scripted neighbours that answer ARP/NS at once, late or never (1/4); IPv4 and/or IPv6 addresses; 0-3 configured servers (IPv4/IPv6, on/off subnet, duplicates, rarely unspecified); 1-3 queries (A/AAAA, 1-5 labels, `.local` => mDNS, start_query / trailing dot / start_query_raw with either mDNS flag) started at drawn instants; a scripted resolver sees every query datagram (independent Ethernet/IP/UDP/DNS decoders) and answers with 0-2 datagrams after a drawn delay (0..31 s), each a correct response with 0-2 (mostly exactly one) attributes drawn wrong: source address (other configured server / stranger), source port (5353/other), destination port, transaction id, question name (other name - preferably a CNAME target used before, with answers for the query's or for that other name -, case, shortened, extended, root, pointer-encoded), question type/class/count, QR, opcode, rcode, TC, answer count, truncation at any byte, garbage; answer section = direct addresses / CNAME chain 1-3 (one target in four padded to 252-259 octets, around the limit of a name) in or out of order ending in the right or wrong record type / unrelated names / empty, plus noise records (unrelated owner, unrelated CNAME, other type, wrong class, bad RDLENGTH, other family), names written plain, compressed, with chained, forward, self, looping and out-of-range pointers, reserved label types or no terminator; plus unsolicited datagrams. Time moves only to Interface::poll_at (optionally a little late), datagram arrival or query start. Non-trivial = a near-miss (exactly one statement attribute wrong, otherwise a usable answer) or a header-and-question-matching response with a CNAME chain or compression pointers was delivered while its query was pending; distinct by digest of configuration, queries and delivered payloads",
         assumptions: vec![
             "independent IPv4/IPv6/UDP codec in vkit::indep and the RFC 1035 codec in vcheck/src/c19_dns.rs",
             "a query's source port and transaction id are those of the first datagram the stack emits after start_query (one query is started per poll)",
